@@ -131,11 +131,6 @@ pub fn log_event(task: usize, what: &str) -> u64 {
     .unwrap_or(0)
 }
 
-/// Current global event number (without logging anything).
-pub fn now() -> u64 {
-    with_ctx(|c| c.event_no).unwrap_or(0)
-}
-
 /// Records the first violation of the execution.
 pub fn violation(class: &str, sig: &str, detail: String) {
     with_ctx(|c| {
